@@ -106,8 +106,11 @@ impl<'xml> Deserializer<'xml> {
     /// Creates a new deserializer
     #[must_use]
     pub fn new(xml: &'xml [u8]) -> Self {
+        let mut inner = Reader::from_reader(xml);
+        // `--` must not occur inside a comment (XML 1.0, production [15]).
+        inner.config_mut().check_comments = true;
         Self {
-            inner: Reader::from_reader(xml),
+            inner,
             peeked: None,
             next_slot: None,
             depth: 0,
